@@ -115,6 +115,12 @@ def connChange (n : Node) (key : Nat) : ConnMode → Node
     if n1.queues.any (fun q => q.peer == key) then n1
     else { n1 with queues := n1.queues ++ [{ peer := key, xor := xorOf n1.dag, clock := lcOf n1.dag }] }
 
+/-- a process restart: conversations, gossip logs and queues are volatile; DAG, payloads and connections' identities are
+    not; on start-up every connected peer gets a fresh queue with the current XOR and clock (loaded from disk) -/
+def restartNode (n : Node) : Node :=
+  { n with convs := [], lastConv := [],
+           queues := (n.peers.filter (·.connected)).map (fun p => { peer := p.key, xor := xorOf n.dag, clock := lcOf n.dag }) }
+
 /-! ### conversations -/
 
 def ConvData.blockable (cfg : Cfg) : ConvData → Bool
